@@ -11,12 +11,13 @@
    PROVED (partial): without mergeProps the props object of a list of plain attributes and
    spreads holds their contributions in source order; children are lowered one to one in
    order (each expression once); slot content sits under an arrow function and nowhere else;
-   a call child is evaluated once (C03_call_child_once).  Not proved: the position of a
-   repeated class/style/listener under mergeProps (dedupe_props) - oracle only.
+   a call child is evaluated once (C03_call_child_once); under mergeProps the arguments of the
+   merge call, the keys inside each run and the values of a grouped class / style / listener
+   keep source order (C11_source_order_merge).
    Known finding: v-slots on an element host is dropped with its expression. *)
 From VJ Require Import Model.Str Model.Json Model.Ast Model.State Model.Util Model.Directive
   Model.Lower Spec.JsxText Spec.OutViews Spec.Site Spec.SiteCheck Lemmas.SiteProofs
-  Lemmas.ChildProofs Lemmas.AttrsProofs.
+  Lemmas.ChildProofs Lemmas.AttrsProofs Lemmas.ContribsProofs Lemmas.MergeProofs.
 
 (* attribute and spread expressions in source order (the contributions list of Spec/Site.v is
    built by one left-to-right pass over the written attributes) *)
@@ -31,6 +32,19 @@ Theorem C11_source_order_partial : forall E ic tag attrs s,
     /\ r_slots (transform_attrs E attrs ic s) = None.
 Proof. exact attrs_refine_no_merge. Qed.
 Print Assumptions C11_source_order_partial.
+
+(* with mergeProps (the default): the merge arguments are the runs and spreads in source order; inside
+   a run the keys stand at their first occurrence and the values of a repeated class / style /
+   listener follow each other in source order ([spec_attrs] builds exactly this by one
+   left-to-right pass; [join_views] separates the arguments by a boundary) *)
+Theorem C11_source_order_merge : forall E ic tag attrs,
+  o_merge_props (e_opts E) = true -> forall s,
+  splice_vmodels attrs false = attrs ->
+  Forall (merge_ok E ic tag attrs) attrs ->
+  (forall e, In (Spread e) attrs -> e <> Null) ->
+  view_contribs (r_attrs (transform_attrs E attrs ic s)) = fst (fst (spec_attrs E ic tag attrs)).
+Proof. exact contribs_refine_arg_merge. Qed.
+Print Assumptions C11_source_order_merge.
 
 (* children: one output element per live child, in order, each expression exactly once *)
 Theorem C11_children_once_in_order : forall E rec chk fail (P : st -> Prop),
